@@ -19,19 +19,25 @@ def replay_max_fa_period(info, ce):
     from eqsig import im
     rng = np.random.RandomState(6)
     tried = 0
-    for n in (8, 16, 33, 64, 200):
+    for n in (2, 8, 16, 33, 64, 200):
         for trial in range(6):
             x = rng.randn(n)
             x -= np.mean(x)
+            if trial == 4:
+                x = x + 10.0                    # record that has not been baseline corrected: the zero-frequency bin is the largest one
             if trial % 2:
                 t = np.arange(n) * 0.02
                 x = np.sin(2 * np.pi * (1.0 + trial) * t + 0.3 * trial * np.pi) + 0.05 * rng.randn(n)      # phase decides the real part
             a = eqsig.AccSignal(x, 0.02)
             with np.errstate(all='ignore'):
-                got = im.max_fa_period(a)
+                try:
+                    got = im.max_fa_period(a)
+                except Exception as e:
+                    return dict(status='confirmed', observed={'raises': type(e).__name__, 'message': str(e)[:200]},
+                                detail='max_fa_period raised %s on a valid record of %d samples' % (type(e).__name__, n), input={'values': x.tolist(), 'dt': 0.02})
                 amp = np.abs(a.fa_spectrum)
                 best = np.flatnonzero(amp >= amp.max() * (1 - 1e-12))
-                want = [1.0 / a.fa_frequencies[k] for k in best]
+                want = [(1.0 / a.fa_frequencies[k]) if a.fa_frequencies[k] != 0 else float('inf') for k in best]
             tried += 1
             if not any(got == w or abs(got - w) <= 1e-12 * abs(w) for w in want):
                 return dict(status='confirmed', observed={'reported_period': float(got), 'period_of_largest_amplitude_bin': [float(w) for w in want]},
